@@ -19,6 +19,9 @@ INTER_ARRIVAL_SHIFT = 26
 TIMESTAMP_GROUP_LENGTH_MS = 5
 TIMESTAMP_TO_MS = 1000.0 / (1 << INTER_ARRIVAL_SHIFT)
 
+# the number of SSRCs in a REMB packet is carried in a single byte
+REMB_MAX_SSRCS = 255
+
 
 class BandwidthUsage(Enum):
     NORMAL = 0
@@ -525,8 +528,10 @@ class RemoteBitrateEstimator:
         timestamp = abs_send_time << 8
         update_estimate = False
 
-        # make note of SSRC
+        # make note of SSRC, a REMB packet can list at most 255 of them
         self.ssrcs[ssrc] = arrival_time_ms
+        while len(self.ssrcs) > REMB_MAX_SSRCS:
+            self.ssrcs.pop(next(iter(self.ssrcs)))
 
         # update incoming bitrate
         if self.incoming_bitrate.rate(arrival_time_ms) is not None:
